@@ -187,31 +187,33 @@ def run_hist(res, depth, first):
     for L in range(1, depth + 1):
         for tail in itertools.product(range(len(ops)), repeat=L - 1):
             hist = (first,) + tail
-            v = Validator()
-            v2 = Validator()       # a second Validator in the same process, used alternately
-            bad = None
-            for step, oi in enumerate(hist):
-                obj = v if step % 2 == 0 or L < 3 else v2
-                try:
-                    a = do_op(obj, ops[oi], docs)
-                except Exception as e:
-                    a = "EXC " + impl.exc_name(e)
-                if a != fresh_answer(ops[oi], docs):
-                    bad = (step, ops[oi], a, fresh_answer(ops[oi], docs))
-                    break
-            res["evals"] += 1
-            if [D.typed(d) for d in docs] != snap:
-                bad = bad or ("mutated",)
-                docs = [impl.loads(t) for t in HIST_DOCS]
-            if bad:
-                R.add_outcome(res, "history_dependent")
-                names = ["%s" % (ops[i],) for i in hist[: bad[0] + 1]] if bad[0] != "mutated" else ["mutated"]
-                R.add_violation(res, "history|" + ";".join(names), "answer depends on earlier calls on the same Validator: %r" % (bad,),
-                                {"history": [list(map(str, ops[i])) for i in hist]}, None)
-            else:
-                R.add_outcome(res, "history_independent")
-                res["states"].add(R.h64(hist))
-    R.add_sub(res, "call histories depth<=%d over %d operations" % (depth, len(ops)), res["evals"])
+            # mode "single": every call on one Validator; mode "alternating": a second Validator of the same process takes every other call
+            for mode in (("single", "alternating") if L >= 3 else ("single",)):
+                v = Validator()
+                v2 = Validator()
+                bad = None
+                for step, oi in enumerate(hist):
+                    obj = v if (mode == "single" or step % 2 == 0) else v2
+                    try:
+                        a = do_op(obj, ops[oi], docs)
+                    except Exception as e:
+                        a = "EXC " + impl.exc_name(e)
+                    if a != fresh_answer(ops[oi], docs):
+                        bad = (step, ops[oi], a, fresh_answer(ops[oi], docs))
+                        break
+                res["evals"] += 1
+                if [D.typed(d) for d in docs] != snap:
+                    bad = bad or ("mutated",)
+                    docs = [impl.loads(t) for t in HIST_DOCS]
+                if bad:
+                    R.add_outcome(res, "history_dependent")
+                    names = ["%s" % (ops[i],) for i in hist[: bad[0] + 1]] if bad[0] != "mutated" else ["mutated"]
+                    R.add_violation(res, "history|%s|%s" % (mode, ";".join(names)), "answer depends on earlier calls on the same Validator: %r" % (bad,),
+                                    {"history": [list(map(str, ops[i])) for i in hist], "mode": mode}, None)
+                else:
+                    R.add_outcome(res, "history_independent")
+                    res["states"].add(R.h64((hist, mode)))
+    R.add_sub(res, "call histories depth<=%d over %d operations (single Validator, and alternating between two)" % (depth, len(ops)), res["evals"])
     if first == 0:
         R.add_sample(res, {"history": [list(map(str, ops[i])) for i in hist]}, 1)
 
